@@ -11,13 +11,17 @@ Full statement (kept visible) — for EVERY row-set, scan list, range and key co
     def RangeScanExact rs cols r k :=
       scanRowSet rs cols (some r) = .ok (rs.visible.filter fun row => sqlInRange r (Row.at row k))
 
-It is proved (`rowset_range_scan_exact`) for key-sorted row-sets under four hypotheses, each forced
-by the code, and REFUTED with any one of them dropped (`range_scan_full_unsound_*`, witnesses
-replayed on the implementation from corpus/C13):
+It is proved (`rowset_range_scan_exact`) for key-sorted row-sets under the storage layer's
+documented precondition (rowset_iterator.rs: "an optional filter for the first column"; start_rowid:
+"only the first column of the rowsets ... should be primary key", "support range-filter scan by
+sort key type of int32"):
   * `k = 0`                 the key is the table's first column (start_rowid reads column 0's block index)
   * `cols.headD 0 = k`      the key is the first column of the scan list (the mask is computed from it)
   * `keysI32`, `bndI32`     INT keys and Int32 bounds (start_rowid panics / DataValue::cmp compares variants)
-  * `boundaryOk`            no duplicate of an Included begin key straddles a block boundary
+Since round 5 the PLANNER only pushes a range that meets this precondition (`rangeGuard`, fixes
+a029577 + fe505a1 in /repo): `guard_implies_precondition`, `guarded_range_scan_exact`. The three
+`range_scan_precondition_*` theorems show the precondition is necessary at the storage API; the
+former fourth hypothesis `boundaryOk` is gone (fix 68084af, `range_scan_dup_boundary_regression`).
 -/
 namespace RlModel
 
@@ -180,11 +184,11 @@ theorem getD_eq_head_drop {α : Type} (l : List α) (i : Nat) (d : α) (h : i < 
   exact ⟨l.drop (i + 1), List.drop_eq_getElem_cons h⟩
 
 /-- The start row chosen from column 0's block index loses nothing: every row before it fails the
-lower bound. Needs: key = column 0, INT keys, Int32 begin key, key-sorted rows, boundary condition. -/
+lower bound. Needs: key = column 0, INT keys, Int32 begin key, key-sorted rows. (No boundary
+condition any more: the walk stops before the first block whose first key is >= the begin key.) -/
 theorem start_row_sound (rs : RowSet) (r : KeyRange)
     (hsorted : SortedBy (keyCmp [⟨0, false⟩]) rs.rows)
-    (hkeys : keysI32 rs 0 = true) (hlo : bndI32 r.lo = true) (hblocks : blocksOk rs = true)
-    (hbound : boundaryOk rs 0 r = true) :
+    (hkeys : keysI32 rs 0 = true) (hlo : bndI32 r.lo = true) (hblocks : blocksOk rs = true) :
     ∃ s, startRowid rs (some r) = .ok s ∧ ∀ row ∈ rs.rows.take s, lowerOk r.lo (Row.at row 0) = false := by
   have hkey : ∀ row ∈ rs.rows, ∃ i : Int, Row.at row 0 = .i32 i ∧ -2147483648 ≤ i ∧ i < 2147483648 := by
     intro row hrow
@@ -235,20 +239,7 @@ theorem start_row_sound (rs : RowSet) (r : KeyRange)
         rw [Ne, Int.compare_eq_gt] at this
         omega
       rcases hcase with ⟨rfl, _⟩ | ⟨rfl, _⟩
-      · -- Included: need j < b
-        have hb := hbound
-        simp only [boundaryOk] at hb
-        have hbs := List.all_eq_true.1 hb s hs
-        have hjb : j ≠ b := by
-          intro hEq
-          subst hEq
-          have hfvj : fv = j := by omega
-          subst hfvj
-          rw [Bool.or_eq_true] at hbs
-          rcases hbs with hh | hh
-          · exact absurd hi1 (of_decide_eq_true hh)
-          · exact (of_decide_eq_true (List.all_eq_true.1 hh row hrow)) hj1
-        simp only [lowerOk, hj1, Val.cmp]
+      · simp only [lowerOk, hj1, Val.cmp]
         have : compare j b = .lt := by rw [Int.compare_eq_lt]; omega
         simp [this]
       · simp only [lowerOk, hj1, Val.cmp]
@@ -305,17 +296,16 @@ theorem inRange_eq_sql (r : KeyRange) (v : Val) (hv : isI32Val v = true) (hlo : 
   simp only [inRange, sqlInRange, lowerOk_eq_sql _ _ hlo, upperBad_eq_sql _ _ hhi]
 
 /-- PARTIAL theorem: the range scan of a key-sorted row-set (any blocks, any batching, any delete
-vector) returns exactly the visible rows in the range, under the four forced hypotheses. -/
+vector) returns exactly the visible rows in the range, under the storage precondition. -/
 theorem rowset_range_scan_exact (rs : RowSet) (cols : List Nat) (r : KeyRange) (k : Nat)
     (hcol0 : k = 0)                                    -- KeyIsCol0
     (hfirst : cols.headD 0 = k)                        -- KeyIsFirstScanned
     (hsorted : SortedBy (keyCmp [⟨k, false⟩]) rs.rows)  -- memtable_sorted (C12)
     (hkeys : keysI32 rs k = true) (hlo : bndI32 r.lo = true) (hhi : bndI32 r.hi = true)   -- INT key, Int32 bounds
-    (hblocks : blocksOk rs = true)
-    (hbound : boundaryOk rs k r = true) :               -- boundary condition
+    (hblocks : blocksOk rs = true) :
     RangeScanExact rs cols r k := by
   subst hcol0
-  obtain ⟨s, hs, hpre⟩ := start_row_sound rs r hsorted hkeys hlo hblocks hbound
+  obtain ⟨s, hs, hpre⟩ := start_row_sound rs r hsorted hkeys hlo hblocks
   unfold RangeScanExact
   simp only [scanRowSet, hs, Out.map, hfirst]
   congr 1
@@ -357,17 +347,59 @@ example : RangeScanExact
     { id := 0, rows := [[.i32 1], [.i32 2], [.i32 4], [.i32 5], [.i32 9], [.i32 9]], dead := [2], blocks := [[2, 2, 2]] }
     [0] ⟨.incl (.i32 2), .excl (.i32 9)⟩ 0 := by decide
 
-/-! ## Each hypothesis is forced: the full statement fails when it is dropped -/
+/-! ## The planner's guard implies the precondition -/
+
+/-- Typing invariant of a stored row-set: columns declared INT hold INT values (C16's subject). -/
+def WellTyped (t : TableMeta) (rs : RowSet) : Prop := ∀ c ∈ t.intCols, keysI32 rs c = true
+
+/-- scan lists are in table order -/
+def TableOrder (cols : List Nat) : Prop := cols.Pairwise (· < ·)
+
+theorem guard_implies_precondition (t : TableMeta) (e : Expr) (k : Nat) (r : KeyRange)
+    (han : analyzeRange e = some (k, r)) (hg : rangeGuard t e = true) :
+    k = 0 ∧ k ∈ t.primary ∧ k ∈ t.intCols ∧ bndI32 r.lo = true ∧ bndI32 r.hi = true := by
+  unfold rangeGuard at hg
+  rw [han] at hg
+  simp only [Bool.and_eq_true, beq_iff_eq, List.contains_eq_mem, decide_eq_true_eq] at hg
+  obtain ⟨⟨⟨⟨h1, h2⟩, h3⟩, h4⟩, h5⟩ := hg
+  exact ⟨h2, h1, h3, h4, h5⟩
+
+theorem head_of_table_order (cols : List Nat) (ho : TableOrder cols) (h0 : 0 ∈ cols) : cols.headD 0 = 0 := by
+  cases cols with
+  | nil => rfl
+  | cons c cs =>
+    simp only [List.headD_cons]
+    rcases List.mem_cons.1 h0 with h | h
+    · exact h.symm
+    · have := (List.pairwise_cons.1 ho).1 0 h
+      omega
+
+/-- FULL statement for the ranges the planner pushes: whenever `is_primary_key_range` lets a
+condition into the scan node, the scan of a key-sorted, well-typed row-set with a table-order scan
+list containing the key returns exactly the visible rows that satisfy the condition's range. No
+hypothesis on key position, key type, bound type or block boundaries is left. -/
+theorem guarded_range_scan_exact (t : TableMeta) (e : Expr) (k : Nat) (r : KeyRange) (rs : RowSet) (cols : List Nat)
+    (han : analyzeRange e = some (k, r)) (hg : rangeGuard t e = true)
+    (hcols : TableOrder cols) (hkin : k ∈ cols)
+    (hwt : WellTyped t rs) (hsorted : SortedBy (keyCmp [⟨k, false⟩]) rs.rows) (hblocks : blocksOk rs = true) :
+    RangeScanExact rs cols r k := by
+  obtain ⟨h0, _, hint, hlo, hhi⟩ := guard_implies_precondition t e k r han hg
+  subst h0
+  exact rowset_range_scan_exact rs cols r 0 rfl (head_of_table_order cols hcols hkin) hsorted (hwt 0 hint) hlo hhi hblocks
+
+example : rangeGuard { primary := [0], sortedByPk := true, intCols := [0, 1] }
+    (.and (.cmp .gt (.col 0) (.const (.i32 1))) (.cmp .le (.col 0) (.const (.i32 5)))) = true := by decide
+
+/-! ## The storage precondition is necessary (storage API), and the planner respects it (regressions) -/
 
 /-- `t(c0 int, c1 int primary key)`, rows stored in key (c1) order -/
 def wKeySecond : RowSet :=
   { id := 0, rows := [[.i32 10, .i32 1], [.i32 20, .i32 2], [.i32 3, .i32 4], [.i32 90, .i32 9]], dead := [], blocks := [[4], [4]] }
 
-/-- Key not first in the scan list (scan list `[c0, c1]` is in table order): the mask is computed
-from `c0` and `c1 > 2` returns all four rows. Every other hypothesis is irrelevant here (one block). -/
-theorem range_scan_full_unsound_key_not_first :
+/-- Storage API, key not first in the scan list: the mask is computed from `c0`, `c1 > 2` returns
+all four rows. -/
+theorem range_scan_precondition_key_first :
     SortedBy (keyCmp [⟨1, false⟩]) wKeySecond.rows ∧ keysI32 wKeySecond 1 = true ∧ blocksOk wKeySecond = true
-      ∧ boundaryOk wKeySecond 1 ⟨.excl (.i32 2), .unb⟩ = true
       ∧ ¬ RangeScanExact wKeySecond [0, 1] ⟨.excl (.i32 2), .unb⟩ 1 := by
   decide
 
@@ -376,47 +408,60 @@ def wKeyNotCol0 : RowSet :=
   { id := 0, rows := [[.i32 0, .i32 1], [.i32 0, .i32 2], [.i32 0, .i32 3], [.i32 0, .i32 4], [.i32 0, .i32 5], [.i32 0, .i32 6]],
     dead := [], blocks := [[2, 2, 2], [2, 2, 2]] }
 
-/-- Key is first in the scan list but NOT the table's column 0: start_rowid walks column 0's first
-keys (all 0 ≤ 2) and starts at the last block; `c1 > 2` loses 3 and 4. -/
-theorem range_scan_full_unsound_key_not_col0 :
+/-- Storage API, key first in the scan list but NOT the table's column 0: start_rowid walks column
+0's first keys (all 0 < 3) and starts at the last block; `c1 >= 3` loses 3 and 4. -/
+theorem range_scan_precondition_key_col0 :
     SortedBy (keyCmp [⟨1, false⟩]) wKeyNotCol0.rows ∧ keysI32 wKeyNotCol0 1 = true ∧ blocksOk wKeyNotCol0 = true
-      ∧ boundaryOk wKeyNotCol0 1 ⟨.excl (.i32 2), .unb⟩ = true ∧ ([1] : List Nat).headD 0 = 1
-      ∧ ¬ RangeScanExact wKeyNotCol0 [1] ⟨.excl (.i32 2), .unb⟩ 1 := by
-  decide
-
-/-- keys 1 5 | 5 7 in blocks of two rows (PRIMARY KEY is not enforced) -/
-def wDupBoundary : RowSet :=
-  { id := 0, rows := [[.i32 1], [.i32 5], [.i32 5], [.i32 7]], dead := [], blocks := [[2, 2]] }
-
-/-- Duplicates of the Included begin key straddling a block boundary: `c0 >= 5` starts at the
-second block and loses the first 5. All other hypotheses hold; `boundaryOk` does not. -/
-theorem range_scan_full_unsound_dup_boundary :
-    SortedBy (keyCmp [⟨0, false⟩]) wDupBoundary.rows ∧ keysI32 wDupBoundary 0 = true ∧ blocksOk wDupBoundary = true
-      ∧ boundaryOk wDupBoundary 0 ⟨.incl (.i32 5), .unb⟩ = false
-      ∧ ¬ RangeScanExact wDupBoundary [0] ⟨.incl (.i32 5), .unb⟩ 0 := by
+      ∧ ([1] : List Nat).headD 0 = 1
+      ∧ ¬ RangeScanExact wKeyNotCol0 [1] ⟨.incl (.i32 3), .unb⟩ 1 := by
   decide
 
 /-- BIGINT key, Int32 literal bound -/
 def wBigint : RowSet :=
   { id := 0, rows := [[.i64 1], [.i64 2], [.i64 5], [.i64 9]], dead := [], blocks := [[4]] }
 
-/-- Non-INT key type: `c0 > 2` with a BIGINT key returns every row (variant ranks are compared),
-`c0 < 3` none; with a VARCHAR key and a lower bound start_rowid panics. -/
-theorem range_scan_full_unsound_key_type :
-    SortedBy (keyCmp [⟨0, false⟩]) wBigint.rows ∧ blocksOk wBigint = true
-      ∧ boundaryOk wBigint 0 ⟨.excl (.i32 2), .unb⟩ = true ∧ keysI32 wBigint 0 = false
+/-- Storage API, non-INT key: `c0 > 2` with a BIGINT key returns every row (variant ranks are
+compared), `c0 < 3` none; with a VARCHAR key and a lower bound start_rowid panics. -/
+theorem range_scan_precondition_key_type :
+    SortedBy (keyCmp [⟨0, false⟩]) wBigint.rows ∧ blocksOk wBigint = true ∧ keysI32 wBigint 0 = false
       ∧ ¬ RangeScanExact wBigint [0] ⟨.excl (.i32 2), .unb⟩ 0
       ∧ ¬ RangeScanExact wBigint [0] ⟨.unb, .excl (.i32 3)⟩ 0
       ∧ scanRowSet { id := 0, rows := [[.str "b"], [.str "m"], [.str "x"]], dead := [], blocks := [[3]] } [0]
           (some ⟨.excl (.str "c"), .unb⟩) = .panic "start_rowid:key-type" := by
   decide
 
-/-- A scan-node filter that is not a key range (here the constant `false`, what a contradictory
-condition `k > 14 AND k < 9` is folded to) is dropped by the executor builder: the scan returns
-every row. -/
-theorem scan_filter_ignored_unsound :
+/-- Regression of the three former findings (`range:key-not-first-scanned`, `range:key-not-col0`,
+`range:key-type-not-i32`): the planner no longer pushes these conditions into the scan. -/
+theorem range_guard_regression :
+    rangeGuard { primary := [1], sortedByPk := true, intCols := [0, 1] } (.cmp .gt (.col 1) (.const (.i32 2))) = false
+      ∧ rangeGuard { primary := [0], sortedByPk := true, intCols := [1] } (.cmp .gt (.col 0) (.const (.i32 2))) = false
+      ∧ rangeGuard { primary := [0], sortedByPk := true, intCols := [] } (.cmp .gt (.col 0) (.const (.str "c"))) = false
+      ∧ rangeGuard { primary := [0], sortedByPk := true, intCols := [0] } (.cmp .gt (.col 0) (.const (.i64 3000000000))) = false := by
+  decide
+
+/-- keys 1 5 | 5 7 in blocks of two rows (PRIMARY KEY is not enforced) -/
+def wDupBoundary : RowSet :=
+  { id := 0, rows := [[.i32 1], [.i32 5], [.i32 5], [.i32 7]], dead := [], blocks := [[2, 2]] }
+
+/-- Regression of `range:dup-keys-across-blocks` (fix 68084af): duplicates of the Included begin key
+straddling a block boundary are all returned (`boundaryOk` fails for this row-set, it no longer matters). -/
+theorem range_scan_dup_boundary_regression :
+    boundaryOk wDupBoundary 0 ⟨.incl (.i32 5), .unb⟩ = false
+      ∧ RangeScanExact wDupBoundary [0] ⟨.incl (.i32 5), .unb⟩ 0 := by
+  decide
+
+/-- A scan-node filter that is neither `true` nor a key range is evaluated on top of the scan
+(fix a546337; it used to be dropped by the executor builder). -/
+theorem scan_filter_residual (t : TableMeta) (lay : List RowSet) (cols : List Nat) (f : Expr)
+    (hf : f ≠ .const (.bool true)) (hr : keyRangeOfFilter f = none) :
+    execPlan t lay (.scan cols f) = (tableScan t.primary lay cols none).map fun rs => rs.filter (keepRow f) := by
+  simp only [execPlan, hr, Option.isNone_none, if_true]
+
+/-- Regression of `range:scan-filter-not-range`: the contradictory key condition folded to `false`
+now yields no rows, as the specification says. -/
+theorem scan_filter_false_regression :
     keyRangeOfFilter (.const (.bool false)) = none
-      ∧ execPlan ⟨[], true⟩ [wDupBoundary] (.scan [0] (.const (.bool false))) = .ok wDupBoundary.rows
+      ∧ execPlan { primary := [], sortedByPk := true } [wDupBoundary] (.scan [0] (.const (.bool false))) = .ok []
       ∧ specPlan [wDupBoundary] (.scan [0] (.const (.bool false))) = [] := by
   decide
 
